@@ -135,6 +135,17 @@ check_success(const char *ctx)
                     a.code, rt_bits(d->reg[i].type, g.value));
         VH_COUNT("default read back");
     }
+    /* initialisation is over: an always-fail register accepts nothing any more, not even its own default */
+    for (int i = 0; i < d->nregs; i++) {
+        if (d->reg[i].ck != REGV_TYPE_FAIL)
+            continue;
+        int ai = rt_area_of(d, d->reg[i].addr);
+        RegisterValue v = { .type = (RegisterType)d->reg[i].type, .value = d->reg[i].def };
+        RegisterAccess a = register_set(&inst.t, (RegisterHandle)i, v);
+        if (a.code == REG_ACCESS_SUCCESS)
+            vh_fail("always-fail-register-writable-after-init", "result=success", "%s: register %d (area %d) accepted a typed set", ctx, i, ai);
+        VH_COUNT("always-fail register probed after initialisation");
+    }
     /* area -> register run */
     if (inst.t.areas != d->nareas || inst.t.entries != (RegisterHandle)d->nregs)
         vh_fail("table-counts", "result=success", "%s: areas=%u entries=%u", ctx, inst.t.areas, inst.t.entries);
@@ -482,6 +493,7 @@ harness_run(void)
                                  "table with more than 65536 registers",
                                  "initialisation of a table object that was initialised before",
                                  "device refusing a default while the table is initialised",
+                                 "always-fail register probed after initialisation",
                                  "failed re-initialisation: no-areas", "failed re-initialisation: area-order",
                                  "failed re-initialisation: area-overlap", "failed re-initialisation: entry-order",
                                  "failed re-initialisation: entry-overlap", "failed re-initialisation: entry-in-hole",
